@@ -77,6 +77,14 @@ func c20Years(c *ctx) {
 					row["z2"] = s.GetXingzuo()
 					row["f"] = strList(s.GetFestivals())
 					row["o"] = strList(s.GetOtherFestivals())
+					// the same day a year later, reached by stepping from the object whose festivals (and so weekday) were
+					// just asked for: a derived object answers like a constructed one
+					if y < 9998 && d%3 == 0 {
+						n := s.NextYear(1)
+						row["ny"] = []int{n.GetYear(), n.GetMonth(), n.GetDay()}
+						row["nz"] = n.GetXingZuo()
+						row["nf"] = strList(n.GetFestivals())
+					}
 				})
 				row["p"] = b2i(pp)
 				rows = append(rows, row)
